@@ -389,6 +389,84 @@ theorem noninterference (start : Int) (ds : List VDecl) (cells : List (Nat × Na
   · intro j w hw
     simp [readVar, hw]
 
+/-! ### several main programs sharing subprogram classes
+
+A `SubProgram` class lays its locals out from 0 when the class is created (`relSlots`); where they are on the
+stack is decided when an address is used, from the main program the instance belongs to:
+`(instance.ebpf.stack & -8) + relative_addr`.  A process holds any number of main programs, built one after the
+other, whose subprogram instances may be of the same classes.  Nothing in the rule refers to another main program
+or to an earlier use: the address of a subprogram local is a function of the frame of its own main program. -/
+
+/-- the frame of a subprogram class, relative to its base: slots of `alloc` from 0 -/
+def relSlots (locals : List Nat) : List Slot := (alloc 0 (locals.map Decl.loc)).1
+
+/-- one main program of the process: its declarations and the classes (numbers) of its subprogram instances -/
+structure Main where
+  decls : List VDecl
+  subs : List Nat
+
+/-- the processes' programs: the subprogram classes (shared) and the main programs, in the order they were built -/
+structure World where
+  classes : List (List Nat)
+  mains : List Main
+
+def Main.final (m : Main) : Int := (varSlots 0 m.decls).2
+
+/-- the slots of the locals of all subprogram instances of a main program, as the generated code addresses them -/
+def World.subSlots (w : World) (m : Main) : List Slot :=
+  m.subs.flatMap fun c => (relSlots (w.classes.getD c [])).map fun r => ⟨subAddr m.final r.addr, r.size⟩
+
+theorem relSlots_below (locals : List Nat) (h : ∀ n ∈ locals, 0 < n) : ∀ r ∈ relSlots locals, r.addr + r.size ≤ 0 := by
+  intro r hr
+  have hs : ∀ d ∈ locals.map Decl.loc, sizeOk d := by
+    intro d hd
+    obtain ⟨n, hn, rfl⟩ := List.mem_map.mp hd
+    exact h n hn
+  exact ((alloc_bounds _ 0 hs).2 r hr).2
+
+/-- **a subprogram local lies below every variable of its main program**: wherever the frame of the main program
+ends, a slot of the subprogram frame (relative address + size ≤ 0) placed at `(final & -8) + rel` ends at or below it -/
+theorem sub_below_main (ds : List VDecl) (start : Int) (h : ∀ d ∈ ds, vsizeOk d) (rel : Int) (size : Nat)
+    (hrel : rel + size ≤ 0) :
+    ∀ sl ∈ (varSlots start ds).1, Slot.disjoint ⟨subAddr (varSlots start ds).2 rel, size⟩ sl := by
+  intro sl hsl
+  have hb := ((varSlots_bounds ds start h).2 sl hsl).1
+  have ha := alignDown_le (varSlots start ds).2 8 (by omega)
+  left
+  simp only [subAddr]
+  omega
+
+/-- **instances are independent** (C04 for any number of main programs): in every world - any subprogram classes,
+any main programs, any sharing of classes between them, any order of creation - the locals of the subprogram
+instances of a main program share no byte with the variables (locals, Dict members) of that main program.  The
+statement is about each main program by itself: its own declarations decide, no other program of the world does. -/
+theorem world_sub_disjoint (w : World) (hc : ∀ c ∈ w.classes, ∀ n ∈ c, 0 < n) (m : Main) (_hm : m ∈ w.mains)
+    (hd : ∀ d ∈ m.decls, vsizeOk d) :
+    ∀ s ∈ w.subSlots m, ∀ sl ∈ (varSlots 0 m.decls).1, Slot.disjoint s sl := by
+  intro s hs sl hsl
+  obtain ⟨c, _, hs⟩ := List.mem_flatMap.mp hs
+  obtain ⟨r, hr, rfl⟩ := List.mem_map.mp hs
+  have hpos : ∀ n ∈ w.classes.getD c [], 0 < n := by
+    intro n hn
+    by_cases hlt : c < w.classes.length
+    · have e : w.classes.getD c [] = w.classes[c] := by simp [List.getD_eq_getElem?_getD, hlt]
+      rw [e] at hn
+      exact hc _ (List.getElem_mem hlt) n hn
+    · have e : w.classes.getD c [] = [] := by simp [List.getD_eq_getElem?_getD, Nat.le_of_not_lt hlt]
+      rw [e] at hn
+      cases hn
+  exact sub_below_main m.decls 0 hd r.addr r.size (relSlots_below _ hpos r hr) sl hsl
+
+/-- the address of a subprogram local does not depend on the world around its main program -/
+theorem world_sub_local (w₁ w₂ : World) (m : Main) (h : w₁.classes = w₂.classes) : w₁.subSlots m = w₂.subSlots m := by
+  unfold World.subSlots; rw [h]
+
+/-- the seeded-change scenario on the model: class `[4]` used by a small and then by a large main program - in
+each, the subprogram's local is below the main program's own variables -/
+example : (⟨[[4]], [⟨[.loc 4], [0]⟩, ⟨[.loc 8, .loc 8, .loc 8], [0]⟩]⟩ : World).subSlots ⟨[.loc 8, .loc 8, .loc 8], [0]⟩
+    = [⟨-28, 4⟩] := by decide
+example : (⟨[[4]], [⟨[.loc 4], [0]⟩, ⟨[.loc 8, .loc 8, .loc 8], [0]⟩]⟩ : World).subSlots ⟨[.loc 4], [0]⟩ = [⟨-12, 4⟩] := by decide
+
 /-! ### non-vacuity -/
 example : (alloc 0 [.loc 4, .loc 1, .loc 8, .dict 15 13, .loc 2]).1 =
     [⟨-4, 4⟩, ⟨-5, 1⟩, ⟨-16, 8⟩, ⟨-32, 15⟩, ⟨-48, 13⟩, ⟨-50, 2⟩] := by decide
